@@ -424,6 +424,7 @@ int xmp_set_player__(xmp_context opaque, int parm, int val)
 		break;
 	case XMP_PLAYER_VOICES:
 		s->numvoc = val;
+		ret = 0;
 		break;
 	}
 
